@@ -202,16 +202,14 @@ impl<'a> Lexer<'a> {
     // Consumes numbers: *"-" "0" / ( %x31-39 *DIGIT )
     #[inline]
     fn consume_number(&mut self, pos: usize, first_char: char, is_negative: bool) -> Result<Token, JmespathError> {
-        let lexeme = self.consume_while(first_char.to_string(), |c| c.is_digit(10));
+        // Parse the sign together with the digits: i32::MIN has no positive counterpart.
+        let prefix = if is_negative { "-" } else { "" };
+        let lexeme = self.consume_while(format!("{}{}", prefix, first_char), |c| c.is_digit(10));
         let numeric_value: i32 = lexeme.parse().map_err(|_| {
             let reason = ErrorReason::Parse("Expected valid number".to_owned());
             JmespathError::new(self.expr, pos, reason)
         })?;
-        Ok(if is_negative {
-            Number(-numeric_value)
-        } else {
-            Number(numeric_value)
-        })
+        Ok(Number(numeric_value))
     }
 
     // Consumes a negative number
